@@ -31,6 +31,8 @@ def run(prog, chk):
     wiring(prog, chk)
     location_choice(prog, chk)
     all_candidates_measured(prog, chk)
+    connection_type_verbatim(prog, chk)
+    candidate_table(prog, chk)
     from props import geomalg
     geomalg.check_sites(prog, chk, "C13")
     geomalg.check(prog, chk, "C13", floor=30)
@@ -72,6 +74,67 @@ def hygiene(prog, chk):
     rn = tm.call_sites(R.path_endswith("Connector::render"))
     ok = bool(wo) and bool(rn) and R.origin(tm, wo[0][1]["args"][0], carriers={"branch": 0})[0] == "call"
     chk.ob(ok, "A14.connector-attrs", "edge-type", tm.where(), "`edge-type` is stripped from the rendered connector", "`edge-type` is no longer stripped from the rendered connector")
+
+
+def connection_type_verbatim(prog, chk):
+    """the connection type that selects the candidate attachment locations is the one from_element was given: the
+    ConnectionType argument of every closest_loc / shortest_link call is the parameter itself (not a value derived
+    from it - e.g. downgraded when an endpoint is a literal point)"""
+    fe = prog.body(CON + "Connector::from_element")
+    chk.touch(fe)
+    param = None
+    for l in range(1, 8):
+        if "ConnectionType" in (fe.local_ty(l) or "") and fe.local_name(l):
+            param = l
+            break
+    sites = fe.call_sites(lambda c: c.path in (CON + "closest_loc", CON + "shortest_link"))
+    chk.floor("A13.conn-type-verbatim", len(sites), 5, "closest_loc / shortest_link call in from_element")
+    if param is None:
+        chk.anchor_missing("A13.conn-type-verbatim", "from_element has no ConnectionType parameter")
+        return
+    for (bb, t, c) in sites:
+        arg = None
+        for a in t["args"]:
+            pl = op_place(a)
+            if pl is not None and "ConnectionType" in (fe.local_ty(pl[0]) or ""):
+                arg = pl
+        ok = False
+        if arg is not None and not arg[1]:
+            l = arg[0]
+            for _ in range(6):
+                if l == param:
+                    ok = True
+                    break
+                defs = fe.defs_of(l)
+                if len(defs) != 1 or defs[0][1] == R.TERM or defs[0][2].get("k") != "use" or op_place(defs[0][2].get("op")) is None:
+                    break
+                l = op_place(defs[0][2]["op"])[0]
+        chk.ob(ok, "A13.conn-type-verbatim", f"from_element:{c.path.split('::')[-1]}", fe.where(bb, t.get("line")), "the candidate locations are chosen for the connection type that was requested", f"{c.path.split('::')[-1]}() is given a ConnectionType other than the one from_element received: the attachment location is chosen from the candidate set of a different connection type (e.g. corners for an elbow connector)")
+
+
+def candidate_table(prog, chk):
+    """the candidate attachment locations per connection type are the documented ones"""
+    el = prog.maybe_body(CON + "edge_locations")
+    if el is None:
+        chk.anchor_missing("A15.candidate-locations", "edge_locations not found")
+        return
+    chk.touch(el)
+    h = prog.hir[el.id]
+    want = {
+        "Horizontal": {"Left", "Right"},
+        "Vertical": {"Top", "Bottom"},
+        "Corner": {"Top", "Right", "Bottom", "Left"},
+        "Straight": {"Top", "Bottom", "Left", "Right", "TopLeft", "BottomLeft", "TopRight", "BottomRight"},
+    }
+    got = {}
+    for m in hirq.exprs(h["body"], "Match"):
+        for a in m["arms"]:
+            for q in ([a["pat"]] if a["pat"].get("p") != "or" else a["pat"]["pats"]):
+                v = (q.get("res") or {}).get("path", "").split("::")[-1]
+                if v in want:
+                    got[v] = {(p.get("res") or {}).get("path", "").split("::")[-1] for p in hirq.exprs(a["body"], "Path") if "LocSpec" in (p.get("res") or {}).get("path", "")}
+    for v, locs in want.items():
+        chk.ob(got.get(v) == locs, "A15.candidate-locations", v, el.where(), f"{v}: candidates {sorted(locs)}", f"{v} connections choose among {sorted(got.get(v) or [])} (cannot be read from the arm if empty); the documented candidates are {sorted(locs)} - a missing candidate means the nearest location is not found on some diagonals")
 
 
 def location_choice(prog, chk):
